@@ -261,7 +261,10 @@ package ast
 // ---- C06 / C08: merging an included Taskfile adds its tasks and variables to the parent; it never rewrites an
 // attribute (run:, method:, ...) of a task the parent already has
 //@ func (*Taskfile).Merge
-//@   site (*Tasks).Merge#1 requires arg0 == t1.Tasks && arg1 == t2.Tasks && arg2 == include && arg3 == t1.Vars       [C08,C10]
+//@   site (*Tasks).Merge#1 requires arg0 == t1.Tasks && arg1 == t2.Tasks && arg2 == include                           [C08,C10]
+// "the variables of the included Taskfile" that every merged task carries are the INCLUDED file's own variables
+// (not the parent's: those are the global level, which the include statement's vars must be able to override)
+//@   site (*Tasks).Merge#1 requires arg3 == t2.Vars                                                                     [C10]
 //@   nosite (*Tasks).All            -- the tasks are touched by Tasks.Merge only (which copies), never walked over here  [C06,C08]
 //@   nosite (*Tasks).Values                                                                                             [C06,C08]
 //@   nosite (*Tasks).Get                                                                                                [C06,C08]
